@@ -156,6 +156,83 @@ func slowStoreRead(sum *hx.Summary) {
 	}
 }
 
+// overlappingStoreReads: the store still holds a well-formed but expired record for a cold key and is slow to
+// answer; four requests for that key arrive while the first read is in progress.  Exactly one of them becomes
+// the fetcher, the others wait for it and are answered from its (cacheable) result.
+func overlappingStoreReads(sum *hx.Summary) {
+	const name = "overlapread"
+	url := "fake://" + name
+	ss := &slowReadStore{fakeStore: fakeStore{data: map[string][]byte{}}, gate: make(chan struct{}), entered: make(chan struct{}, 16)}
+	store.VerifRegister(url, ss)
+	defer store.VerifUnregister(url)
+	cache.ResetDispatchers([]config.CacheConfig{{Name: name, Size: 64, HitForPass: "300s", Store: url}})
+	defer cache.ResetDispatchers(nil)
+	d := cache.GetDispatcher(name)
+	key := []byte("GET slow.example /stale-record")
+	now := time.Now().Unix()
+	rec, _ := cache.VerifNewEntry(3, mkResp(7790), now-100, now-50).Bytes()
+	ss.data[string(key)] = rec
+	ss.slowKey = string(key)
+	const n = 4
+	res := make(chan cache.Status, n)
+	for i := 0; i < n; i++ {
+		go func() {
+			st, _ := d.GetHTTPCache(key).Get()
+			res <- st
+		}()
+	}
+	select {
+	case <-ss.entered:
+	case <-time.After(2 * time.Second):
+		sum.Count("overlapping-store-reads-scenario-skipped")
+		close(ss.gate)
+		return
+	}
+	time.Sleep(100 * time.Millisecond) // the other three have arrived (parked on the entry, or reading the store themselves)
+	close(ss.gate)
+	var early []string
+	deadline := time.After(400 * time.Millisecond)
+collect:
+	for {
+		select {
+		case st := <-res:
+			early = append(early, st.String())
+		case <-deadline:
+			break collect
+		}
+	}
+	fetchers := 0
+	for _, st := range early {
+		if st == cache.StatusFetching.String() {
+			fetchers++
+		}
+	}
+	// complete the fetch so that the parked requests return
+	d.GetHTTPCache(key).Cacheable(mkResp(2), 60)
+	var late []string
+	deadline2 := time.After(2 * time.Second)
+	for len(early)+len(late) < n {
+		select {
+		case st := <-res:
+			late = append(late, st.String())
+		case <-deadline2:
+			late = append(late, "<never returned>")
+		}
+	}
+	sum.Count("overlapping-store-reads-scenario")
+	bad := fetchers != 1 || len(early) != 1
+	for _, st := range late {
+		if st != cache.StatusHit.String() {
+			bad = true
+		}
+	}
+	if bad {
+		sum.ImplViolations = append(sum.ImplViolations, map[string]interface{}{"property": "C01", "kind": "several-fetchers-for-a-cold-key-with-a-stale-store-record",
+			"what": "four requests arrived for one cold key while the (slow) store read of its expired record was in progress: expected one fetching request and three waiting for it and answered hit",
+			"key":  string(key), "returned_before_the_fetch_completed": early, "returned_after": late})
+	}
+}
+
 func (b *blockingStore) Delete(key []byte) error {
 	if b.gate != nil {
 		b.entered <- struct{}{}
@@ -409,6 +486,7 @@ func TestChoreo(t *testing.T) {
 	_ = os.Remove(out + "/inflight.json")
 	runtime.GOMAXPROCS(4) // the last scenario needs real blocking, not a forced schedule
 	slowStoreRead(sum)
+	overlappingStoreReads(sum)
 	w.Flush()
 	sum.DistinctNontrivial = distinct.Len()
 	sum.Write(out)
